@@ -43,6 +43,7 @@ def check(A):
     R.jsonp_rule(A, 'C10')
     R.asgi_body_rule(A, 'C10')
     R.driver_send_rule(A, 'C10')
+    R.driver_wait_rule(A, 'C10')
     R.driver_fifo_rule(A, 'C10')
     for cf in C.CFLAVOURS:
         C.connect_polling_rules(A, cf, 'C10')
